@@ -1035,6 +1035,21 @@ func (cg *ConsumerGroup) assignTopicPartitions(conn coordinator, group joinGroup
 
 	topics := extractTopics(members)
 	partitions, err := conn.readPartitions(topics...)
+	if errors.Is(err, UnknownTopicOrPartition) && len(topics) > 1 {
+		// the listing fails as a whole when one of the topics doesn't exist;
+		// read the topics one by one so that the missing ones don't take the
+		// partitions of the others with them.
+		partitions = nil
+		for _, topic := range topics {
+			var topicPartitions []Partition
+			topicPartitions, err = conn.readPartitions(topic)
+			if err != nil && !errors.Is(err, UnknownTopicOrPartition) {
+				break
+			}
+			err = nil
+			partitions = append(partitions, topicPartitions...)
+		}
+	}
 
 	// it's not a failure if the topic doesn't exist yet.  it results in no
 	// assignments for the topic.  this matches the behavior of the official
